@@ -581,6 +581,13 @@ theorem overflow_tests_count_from_the_request :
       [("received_packets_overflow", "REKEY_PACKETS_OVERFLOW_MAX"),
        ("received_bytes_overflow", "REKEY_BYTES_OVERFLOW_MAX")] := by decide
 
+/-- **Keepalives stay quiet while a re-exchange is pending** (AST of `Packetizer._check_keepalive`, read on every run):
+the early return on `need_rekey` comes before the callback.  The callback is `Transport.global_request(…,
+wait=False)`, i.e. `_send_user_message` *on the transport thread* — the self-block mechanism of
+`C11_witness_selfblock` — and an idle time-out in the middle of an in-flight packet does reach `_check_keepalive`
+with the request pending. -/
+theorem keepalive_silent_while_rekey_pending : Generated.C11.keepaliveSilentWhileRekeyPending = true := by decide
+
 end Gate
 
 end PV.Props.C11
